@@ -58,12 +58,14 @@ pub fn try_sign_file(data: &str) -> Option<String> {
 
 /// Verifies the signature in a signed file.
 pub fn is_valid_signature(data: &str) -> bool {
-    if let Some(mat) = RE.find(data) {
-        let actual = &data[mat.start() + 25..mat.end() - 2];
-        let unsigned = RE.replace(data, SIGNING_TOKEN);
-        return hash(&unsigned) == actual;
-    }
-    false
+    // `sign` replaces every occurrence of the token with the same signature, and the
+    // file may contain older signatures as well. So, for each signature that is present,
+    // restore the token wherever that signature occurs and compare.
+    RE.captures_iter(data).any(|captures| {
+        let actual = &captures[1];
+        let unsigned = data.replace(&format!("SignedSource<<{}>>", actual), NEWTOKEN);
+        hash(&unsigned) == actual
+    })
 }
 
 #[cfg(test)]
